@@ -22,9 +22,9 @@ def fieldKey (cfg : Cfg) (renameAll : Option Rule) (f : Field) : Str :=
   | none, some r => Case.applyToField cfg.ops r ident
   | none, none => ident
 
-/-- `<Named as TS>::name()` as a tree: a reference with the argument names -/
+/-- `<Named as TS>::name()` as a tree: a reference with the argument names (one per type parameter: anything else does not compile) -/
 def nameN (env : Env) (id : Str) (targs : List Ts) : Option Ts :=
-  (env.find id).map fun it => .ref (Derive.tsName it) targs
+  (env.find id).bind fun it => if targs.length = it.generics.length then some (.ref (Derive.tsName it) targs) else none
 
 def tyTs (cfg : Cfg) (env : Env) (t : RTy) : Option Ts := Builtin.nameTyB cfg.limit (nameN env) t
 
